@@ -397,8 +397,22 @@ class World:
                               ciphers=[S.AES256, S.AES128], compression=[Z.ZLIB, Z.Uncompressed], created=keypool.T0)
             self.keys[n] = k
             self.orc.register(k)
-        for n in ('ed25519b', 'secp256k1'):
-            pass
+        # recipients whose ECDH key carries KDF parameters that are NOT the library's per-curve defaults (as other implementations
+        # write them, e.g. SHA-256 / AES-128 for every curve): both directions must use the parameters stored in the KEY (RFC 6637 7, 8)
+        from .c18 import nondefault_kdf_blob
+        for n in ('p256', 'p384', 'ed25519'):
+            if n not in self.keys:
+                continue
+            try:
+                with warnings.catch_warnings():
+                    warnings.simplefilter('ignore')
+                    blob, changed = nondefault_kdf_blob(keypool.get(n))
+                    kv = self.pgpy.PGPKey.from_blob(blob)[0]
+                if changed:
+                    self.keys[n + '/kdf'] = kv
+                    self.orc.register(kv)
+            except Exception as ex:
+                ctx.skipped.append('non-default KDF variant of %s: %r' % (n, ex))
         self.nonrecipient = {}
 
     def close(self):
